@@ -193,13 +193,13 @@ type ruleEvidence struct {
 }
 
 type controlsEvidence struct {
-	Built       int      `json:"built"`
-	Flipped     int      `json:"flipped"`
-	Unbuildable int      `json:"unbuildable"`
-	Redundant   []string `json:"redundant_witness,omitempty"`
+	Built           int      `json:"built"`
+	Flipped         int      `json:"flipped"`
+	Unbuildable     int      `json:"unbuildable"`
+	Redundant       []string `json:"redundant_witness,omitempty"`
 	UnbuildableList []string `json:"unbuildable_list,omitempty"`
-	Samples     []string `json:"samples,omitempty"`
-	failed      string
+	Samples         []string `json:"samples,omitempty"`
+	failed          string
 }
 
 func writeEvidence(verif, prop, tier string, seed int, wall float64, results []*Result, configs []string,
